@@ -458,6 +458,93 @@ def prove_offset(src_root, ex: Explorer):
     ex.run(progress, 'progress')
 
 
+def prove_negotiated_offset_is_used(src_root, ex: Explorer):
+    """Both ends count from the offset negotiated for THIS attempt.  Uploader (_initialize_upload): whatever progress an earlier attempt
+    left in bytes_transfered (a re-queued upload keeps it), the byte phase starts with bytes_transfered == the offset just received - for
+    EVERY offset, 0 included (a downloader that starts over must get the head of the file).  Downloader (_initialize_download): from the
+    moment the PeerTransferReply(allowed) has been sent the future for the incoming file connection is registered at every suspension -
+    the uploader may deliver connection and ticket at once, and a ticket that finds no future gets its connection closed."""
+    def upload(ctx: Ctx):
+        it = mk(src_root, ctx)
+        t, calls, fs, stale = mk_transfer(it, ctx, 'UPLOAD')
+        off = ctx.fresh_int('negotiated_offset')
+        ctx.assume(z3.And(off >= 0, off < (1 << 64)))
+        fconn = Stub('file_connection', send_message=Recorder('send', is_async=True), disconnect=Recorder('disconnect', is_async=True),
+                     receive_transfer_offset=Recorder('receive_transfer_offset', ret=Sym(off, 'int'), is_async=True))
+        reply = Stub('reply', allowed=True, reason=None, ticket=7)
+        net = Stub('network', send_peer_messages=Recorder('send_peer_messages', is_async=True),
+                   create_peer_response_future=Recorder('create_peer_response_future', ret=(Stub('peer_connection'), reply), is_async=True),
+                   create_peer_connection=Recorder('create_peer_connection', ret=fconn, is_async=True))
+        mgr = new(it, MGR, 'TransferManager', _network=net, _ticket_generator=Stub('gen'))
+        it.natives['builtins.next'] = Native('builtins.next', lambda it2, a, k: 7)
+        started = []
+        it.hooks[f'{MGR}:TransferManager._upload_file'] = lambda it2, f, a, k: A.SimpleAwaitable(
+            it2.aio, 'upload', lambda it3: started.append((a[1], a[2], t.attrs['bytes_transfered'])))
+        try:
+            run(it, it.getattr(mgr, '_initialize_upload'), t)
+        except PyRaise as pr:
+            ctx.fail('C04._initialize_upload.starts-at-negotiated-offset', repr(pr.exc))
+            return
+        ok = len(started) == 1 and started[0][0] is t and started[0][1] is fconn and ctx.valid(z3int(unbox(started[0][2])) == off)
+        ctx.prove('C04._initialize_upload.starts-at-negotiated-offset', ok,
+                  'the byte phase of an upload must start with bytes_transfered == the offset received for this attempt (0 included); progress left '
+                  f'by an earlier attempt must not survive: upload started with {[x[2] for x in started]}')
+    ex.run(upload, 'upload-offset')
+
+    def download(ctx: Ctx):
+        it = mk(src_root, ctx)
+        t, calls, fs, bt0 = mk_transfer(it, ctx, 'DOWNLOAD')
+        mgr = new(it, MGR, 'TransferManager', _file_connection_futures={})
+        it.hooks[f'{MGR}:TransferManager._calculate_offset'] = lambda it2, f, a, k: A.SimpleAwaitable(it2.aio, 'offset', lambda it3: 0)
+        it.hooks[f'{MGR}:TransferManager._download_file'] = lambda it2, f, a, k: A.SimpleAwaitable(it2.aio, 'download', lambda it3: None)
+        allowed_sent = []
+
+        def reply_sent(it2, a, k):
+            m = a[0]
+            if isinstance(m, Obj) and it2.truth(m.attrs.get('allowed')) is True:
+                allowed_sent.append(m)
+        pconn = Stub('peer_connection', send_message=Recorder('send', fn=reply_sent, is_async=True))
+        fconn = Stub('file_connection', send_message=Recorder('send', is_async=True), disconnect=Recorder('disconnect', is_async=True))
+        req = new(it, 'protocol.messages', 'PeerTransferRequest.Request', ticket=5, direction=1, filename='remote', filesize=10)
+        orig_future = it.natives['asyncio.Future']
+
+        def mk_future(it2, a, k):
+            f = orig_future.fn(it2, a, k)
+            f.on_await = lambda it3, task: fconn
+            return f
+        it.natives['asyncio.Future'] = Native('asyncio.Future', mk_future)
+        unregistered = []
+
+        def on_yield(it2, label):
+            futs = mgr.attrs['_file_connection_futures']
+            if allowed_sent and not unregistered and isinstance(futs, dict) and 5 not in futs and not done:
+                unregistered.append(str(label))
+        done = []
+        it.aio.on_yield = on_yield
+        # once the file connection has arrived the future has served its purpose: only suspensions before that count
+        real_hook = it.hooks[f'{MGR}:TransferManager._calculate_offset']
+        try:
+            orig_on_await = fconn
+
+            def mk_future2(it2, a, k):
+                f = orig_future.fn(it2, a, k)
+
+                def arrived(it3, task):
+                    done.append(1)
+                    return fconn
+                f.on_await = arrived
+                return f
+            it.natives['asyncio.Future'] = Native('asyncio.Future', mk_future2)
+            run(it, it.getattr(mgr, '_initialize_download'), t, pconn, req)
+        except PyRaise as pr:
+            ctx.fail('C04._initialize_download.future-registered-when-allowed', repr(pr.exc))
+            return
+        ctx.prove('C04._initialize_download.future-registered-when-allowed', bool(allowed_sent) and not unregistered,
+                  f'after PeerTransferReply(allowed) was sent _initialize_download suspends ({unregistered}) while no future is registered for the '
+                  'ticket: a file connection that arrives now is closed by _on_peer_initialized and the attempt is lost')
+    ex.run(download, 'download-future')
+
+
 RETRY_STATES = ['VIRGIN', 'QUEUED', 'INITIALIZING', 'INCOMPLETE', 'COMPLETE', 'UPLOADING', 'FAILED', 'ABORTED', 'PAUSED']
 
 
@@ -635,7 +722,7 @@ def prove_relies_send_and_path(src_root, ex: Explorer):
 
 
 def items(src_root, tier):
-    return [('relies-send-path', None), ('break-is-error', None), ('retry-downloader', None), ('positive-grant', None), ('waits-for-close', None), ('offset-survives', None), ('receive_file', None), ('send_file', None), ('download_file', None), ('upload_file', None), ('offset', None), ('retry', None)]
+    return [('negotiated-offset', None), ('relies-send-path', None), ('break-is-error', None), ('retry-downloader', None), ('positive-grant', None), ('waits-for-close', None), ('offset-survives', None), ('receive_file', None), ('send_file', None), ('download_file', None), ('upload_file', None), ('offset', None), ('retry', None)]
 
 
 def run_item(src_root, item, tier):
@@ -644,7 +731,7 @@ def run_item(src_root, item, tier):
     kind, arg = item
     try:
         {'receive_file': prove_receive_file, 'send_file': prove_send_file, 'download_file': prove_download_file,
-         'upload_file': prove_upload_file, 'offset': prove_offset, 'retry': prove_retry, 'offset-survives': prove_offset_survives, 'break-is-error': prove_break_is_error, 'waits-for-close': prove_waits_for_close, 'positive-grant': prove_positive_grant, 'retry-downloader': prove_retry_downloader,
+         'upload_file': prove_upload_file, 'negotiated-offset': prove_negotiated_offset_is_used, 'offset': prove_offset, 'retry': prove_retry, 'offset-survives': prove_offset_survives, 'break-is-error': prove_break_is_error, 'waits-for-close': prove_waits_for_close, 'positive-grant': prove_positive_grant, 'retry-downloader': prove_retry_downloader,
          'relies-send-path': prove_relies_send_and_path}[kind](src_root, ex)
     except Unsupported as e:
         res.errors.append(f'{kind}: unsupported: {e}')
